@@ -63,7 +63,7 @@ func (c *Conv) from(f *schema.File, t *schema.Type, v *schema.Val, rt reflect.Ty
 			return out, shape("struct %s is %v", d.Name, rt)
 		}
 		for _, fd := range d.Fields {
-			sf := out.FieldByName(fd.Name)
+			sf := out.FieldByName(fd.GoIdent())
 			if !sf.IsValid() {
 				return out, shape("generated struct %v has no field %s", rt, fd.Name)
 			}
@@ -219,7 +219,7 @@ func (c *Conv) to(f *schema.File, t *schema.Type, rv reflect.Value) (*schema.Val
 		}
 		out := schema.Rec(nil)
 		for _, fd := range d.Fields {
-			sf := rv.FieldByName(fd.Name)
+			sf := rv.FieldByName(fd.GoIdent())
 			if !sf.IsValid() {
 				return nil, shape("generated struct %v has no field %s", rv.Type(), fd.Name)
 			}
